@@ -389,7 +389,7 @@ def tla_fill(f):
     return '[shape |-> %s, cells |-> %s, kind |-> "%s"]' % (T.tla_value(f["shape"]), T.tla_value(f["cells"]), f["kind"])
 
 
-INVARIANTS = ["CellCount", "SumPreserved", "Within", "NonNegative", "ArgFirst", "ScanLast", "TopKSorted",
+INVARIANTS = ["CellCount", "SumPreserved", "Within", "NonNegative", "ArgFirst", "NanArgSkipsNaN", "ScanLast", "TopKSorted",
               "KeepdimsShapeOnly", "TreeIndependent", "ArgTreeIndependent", "BlellochEqualsScan"]
 
 
@@ -399,8 +399,15 @@ QFORMS_T = ("{[q |-> << <<1, 2>> >>, sq |-> TRUE, kd |-> FALSE], [q |-> << <<3, 
             "[q |-> %s, sq |-> FALSE, kd |-> FALSE], [q |-> %s, sq |-> FALSE, kd |-> TRUE]}" % (QVEC, QVEC))
 
 
-def enumerate_cases(ctx, fills, fam="all", orders="{0, 1, 3, 4}", label="design+cases", qforms=None):
+def nan_base(ctx):
+    """NaN-free float fills on which TLC enumerates every NaN placement (2^cells of them)."""
+    shapes = [(3, 2), (2, 3)] + ([] if ctx.quick else [(2, 2), (4, 2), (2, 4)])
+    return [gen_fill(ctx.rng, sh, "f") for sh in shapes]
+
+
+def enumerate_cases(ctx, fills, fam="all", orders="{0, 1, 3, 4}", label="design+cases", qforms=None, nanbase=()):
     consts = {"Fam": fam, "Fills": TLA("{" + ", ".join(tla_fill(f) for f in fills) + "}"), "ZeroChunks": True,
+              "NanBase": TLA("{" + ", ".join(tla_fill(f) for f in nanbase) + "}"),
               "Orders": TLA(orders), "EmptyAxes": True, "QForms": TLA(qforms or ctx.pick(QFORMS_Q, QFORMS_T))}
     # KeepdimsShapeOnly evaluates the reference twice per case: thorough tier (and selftest) only
     invs = [i for i in INVARIANTS if not (ctx.quick and i == "KeepdimsShapeOnly")]
@@ -434,7 +441,7 @@ def replay_cases(ctx, items, on_violation=None):
 
 
 def slim(case):
-    return {k: v for k, v in case.items() if k != "chunkings"}
+    return {k: v for k, v in case.items() if k not in ("chunkings", "grp")}
 
 
 # ----------------------------------------------------------------------------- code -> spec
@@ -508,6 +515,18 @@ def random_case(rng):
     if nan_ok and rng.random() < 0.6:
         for p in rng.sample(range(n), min(n, rng.choice([1, 1, 2, 3]))):
             cells[p] = NAN
+    if fam == "arg" and kind == "f" and nd >= 2 and case["ax"] != [NONE] and rng.random() < 0.5:
+        # a lane that is NaN on a leading stretch (all-NaN inside its first blocks, not in the whole array)
+        # next to a lane with a NaN ahead of its extreme value
+        a = np.array(cells, dtype="i8").reshape(shape)
+        ax = case["ax"][0] % nd
+        v = np.moveaxis(a, ax, 0).reshape(shape[ax], -1)        # rows: position along the axis, columns: lanes
+        if v.shape[0] >= 2 and v.shape[1] >= 2:
+            la, lb = rng.sample(range(v.shape[1]), 2)
+            v[:rng.randint(1, v.shape[0] - 1), la] = NAN
+            v[0, lb] = NAN
+            a = np.moveaxis(v.reshape((shape[ax],) + tuple(s for i, s in enumerate(shape) if i != ax)), 0, ax)
+            cells = [int(t) for t in a.ravel()]
     case["cells"] = cells
     case["chunks"] = random_chunks(rng, shape)
     case["variant"] = rng.choice(variants_of(case))
@@ -589,27 +608,40 @@ def validate_records(ctx, recs, on_violation=None):
 def run(ctx):
     thorough = not ctx.quick
     fills = make_fills(ctx)
-    cases, _ = enumerate_cases(ctx, fills, orders=ctx.pick("{1, 3}", "{0, 1, 3, 4}"))
+    cases, _ = enumerate_cases(ctx, fills, orders=ctx.pick("{1, 3}", "{0, 1, 3, 4}"), nanbase=nan_base(ctx))
     # share one chunking list per shape (the dump repeats it in every case)
     shared = {}
     for c in cases:
         key = tuple(c["c"]["shape"])
         c["c"]["chunkings"] = shared.setdefault(key, c["c"]["chunkings"])
-    counts = [len(c["c"]["chunkings"]) for c in cases]
-    total_pairs = sum(counts)
-    cap = ctx.pick(9000, 100000)
-    sampled = total_pairs > cap
-    picks = sorted(ctx.rng.sample(range(total_pairs), cap)) if sampled else range(total_pairs)
-    items, ci, base = [], 0, 0
-    for p in picks:
-        while p >= base + counts[ci]:
-            base += counts[ci]
-            ci += 1
-        c = cases[ci]
-        vs = variants_of(c["c"])
-        if not thorough and len(vs) > 2:
-            vs = ctx.rng.sample(vs, 2)
-        items.append((c["c"], c["e"], c["c"]["chunkings"][p - base], vs))
+    # (case, chunking) pairs, sampled per stratum (family; the NaN-placement family is its own stratum)
+    caps = ctx.pick({"fold": 2400, "arg": 600, "nanplace": 1200, "cum": 500, "topk": 400, "quant": 800},
+                    {"fold": 48000, "arg": 9000, "nanplace": 14000, "cum": 7000, "topk": 7000, "quant": 15000})
+    strata = {}
+    for c in cases:
+        strata.setdefault(c["c"].get("grp", c["c"]["fam"]), []).append(c)
+    items, total_pairs, sampled = [], 0, False
+    for grp in sorted(strata):
+        cs = strata[grp]
+        counts = [len(c["c"]["chunkings"]) for c in cs]
+        total = sum(counts)
+        total_pairs += total
+        cap = caps[grp]
+        if total > cap:
+            sampled = True
+            picks = sorted(ctx.rng.sample(range(total), cap))
+        else:
+            picks = range(total)
+        ci, base = 0, 0
+        for p in picks:
+            while p >= base + counts[ci]:
+                base += counts[ci]
+                ci += 1
+            c = cs[ci]
+            vs = variants_of(c["c"])
+            if not thorough and len(vs) > 2:
+                vs = ctx.rng.sample(vs, 2)
+            items.append((c["c"], c["e"], c["c"]["chunkings"][p - base], vs))
     replay_cases(ctx, items)
     for fam in ("fold", "arg", "cum", "topk", "quant"):
         for it in items:
@@ -617,7 +649,7 @@ def run(ctx):
                 ctx.sample({"case": slim(it[0]), "chunks": it[2], "expected": it[1]})
                 break
     # code -> spec
-    nrec = ctx.pick(1000, 8000)
+    nrec = ctx.pick(700, 8000)
     recs = [r for r in pmap(_record, [(i, random_case(ctx.rng)) for i in range(nrec)], chunk=32) if r is not None]
     validate_records(ctx, recs)
     ctx.exhaustive = not sampled
